@@ -332,7 +332,10 @@ pub fn run_lib_timeout(wgsl: &str, params: &Params, limit: Duration) -> Option<(
 /// Parse with naga exactly as the library does (the oracle side works on this module).
 pub fn naga_parse(wgsl: &str) -> Result<naga::Module, String> {
     match std::panic::catch_unwind(|| naga::front::wgsl::parse_str(wgsl)) {
-        Ok(Ok(m)) => Ok(m),
+        Ok(Ok(m)) => {
+            crate::assumptions::observe(&m);
+            Ok(m)
+        }
         Ok(Err(e)) => Err(e.emit_to_string(wgsl)),
         Err(p) => Err(format!("naga parser panicked: {}", panic_message(p))),
     }
